@@ -54,6 +54,68 @@ CLAIMED = {
     ),
 }
 
+SIMNOTE = 'Trusted: Coq kernel (no axioms: every property theorem is closed under the global context); go2coq translator for the constants and comparisons in gen/GenGuards.v; extraction (ExtrOcamlBasic) and the OCaml/Python glue; the coq-record-update library (definitions only); the simulator harness (testing/synctest virtual time, scripted reference store validated against the real NATS adapter by C14, observers on the public Logger/Metrics/HealthChecker/callback interfaces, call sites from runtime.Callers); record decoding is done by encoding/json in the harness. MODELLED, NOT VERIFIED: the protocol rules of coq/Sim/Proto.v are hand-written from the Go code; what ties them to /repo is that every trace of the real library produced on this run is replayed through them (a rule that fails is reported as a broken correspondence) at blocking-point granularity under one P; interleavings finer than a blocking point, the Go scheduler and real time are not represented.'
+
+def sim(text, ref, technique, category="proof", extra=""):
+    return dict(text=text, design_ref=ref, note=SIMNOTE + (" " + extra if extra else ""), technique=technique, category=category)
+
+TECH = "Coq proof over a protocol automaton (local rules, constants regenerated from the source) + replay of real-library traces (testing/synctest simulator) through the extracted rules and property monitors"
+CLAIMED.update({
+    "C01": sim("Theorems (Coq, induction over all admitted traces of any length and any number of instances): elections touch only their own group's key; a Create "
+               "succeeds only while no live record exists and an Update only against the key's exact latest revision; a created record names its creator; a "
+               "takeover replaces only a live version that the issuer itself read, with takeover enabled and strictly lower stored priority (history-uniqueness "
+               "invariant). The refresh clause (same owner, same token) and deletion-by-owner are decided by the monitor on every simulated trace, not by a "
+               "theorem; deletion-by-owner is FALSE on the code (known finding D5, replayed from corpus/ on every run).", "5.1 and 11", TECH,
+               extra="Clause 105 (refresh replaces only the refresher's own version with the same token) is not proved: the model admits a late-acknowledgement "
+                     "scenario in which it fails (DESIGN 11.4)."),
+    "C02": sim("Theorems: a claim is raised only after the claimant's own successful Create/takeover write, a Create succeeds only on a vacant key, and - with a "
+               "configuration the regenerated validate_config accepts, refreshes answered within H/2 and the ticker rule - two consecutive refresh applications are "
+               "less than TTL apart (the record cannot lapse under a healthy leader). The full statement (at most one claimant, claim backed at every instant) is "
+               "evaluated by the monitor at every flag/record change of every fault-free simulated trace; the timed induction that would make it a theorem "
+               "about the model is not done.", "5.2 and 11", TECH, category="proof"),
+    "C03": sim("Theorems: for all schedules obeying the ticker rule of the heartbeat loop and the regenerated per-attempt time-out, the third consecutive failure completes "
+               "within 3H+3T of the start of the last successful refresh and the next attempt after a record change completes within H+2T; the regenerated time-out "
+               "is max(H/2,1s) and the regenerated strike comparison first holds at exactly 3. The monitor measures both bounds (and the demotion callback) on every "
+               "simulated trace with faults at every attempt index and fault kind.", "5.3 and 11", TECH),
+    "C04": sim("Theorem: the verdict function (hand model of validateToken's decision chain over the map-decoder view) is true iff the token is non-empty and the record "
+               "decodes to an object whose token and id strings equal the caller's; the monitor's condition for a positive answer is exactly that verdict on the "
+               "live record. Every ValidateToken/ValidateTokenOrDemote call of the real library in the simulated traces (tampered, derived, truncated, "
+               "case-variant records; racing writes; cancelled contexts) is checked against it, including the fail-safe and demotion clauses.", "5.4 and 11", TECH,
+               extra="The verdict model is hand-written (not regenerated); the theorem is about that model."),
+    "C05": sim("Theorems: every acquisition by Create publishes a readable payload naming its issuer with a non-empty token (invariant over all admitted traces). "
+               "Freshness of tokens across terms, constancy within a term and the callback/Token()/Status() clauses are decided by the monitor on every trace "
+               "(rule 2003 states freshness locally; uuid uniqueness is trusted).", "5.5 and 11", TECH),
+    "C06": sim("Theorem: for every schedule in which the periodic check fires within the regenerated interval, the acquisition round waits at most the regenerated "
+               "maximum jitter and each store call takes at most L, a vacancy is filled within 500 ms + 100 ms + 4L. The monitor measures the bound on every "
+               "vacancy of every simulated trace (deletion, expiry after crash/partition, removal; lost/closed/failed watches; transient failures).", "5.6 and 11", TECH),
+    "C07": sim("Theorems: the lease lemma of C02 (no lapse under a fast store with an accepted configuration) and the regenerated takeover comparison yields on equal "
+               "priority. Stability itself (no demotion, no owner/token change, no lapse until stop) is decided by the monitor on every fault-free trace.", "5.7 and 11", TECH,
+               category="other"),
+    "C08": sim("Theorem (Coq, counting invariant over all admitted traces): the local callback rules (one promotion per term, entered while the term is alive and "
+               "before it ends; a demotion only when one is owed; the claim raised only when none is owed) imply that promotion and demotion callbacks strictly "
+               "alternate, starting with a promotion. Token of the promotion and the counts at quiescent points are decided by the monitor.", "5.8 and 11", TECH),
+    "C09": sim("Theorem: a stopped election never raises the claim again (invariant: stopped implies state STOPPED; rules: a stopped election stays stopped, the claim "
+               "is refused in state STOPPED). No promotion / no new store call after stop, promptness, goroutine census, crash/hang and the DeleteKey clause are "
+               "decided by the monitor over stop points placed before/inside/after every class of store call.", "5.9 and 11", TECH),
+    "C10": sim("Theorems: a successful Update from the takeover path replaces only a live version read by the issuer, with takeover enabled and strictly lower stored "
+               "priority; the regenerated comparison yields on equal priority and takeover needs the flag and a positive priority. Promptness (3H) and stability "
+               "are decided by the monitor on fault-free traces with latency <= H/10.", "5.10 and 11", TECH),
+    "C11": sim("Theorem: the regenerated default grace period is max(3H, 5 s). Not-early / on-time demotion, the reconnect verification verdict and freedom from "
+               "deadlock/crash are decided by the monitor on connection-notification sequences around the grace boundary.", "5.11 and 11", TECH, category="other"),
+    "C12": sim("Theorems: the regenerated threshold comparison first holds at exactly the configured count (default 3 when <= 0, always >= 1) and the check context "
+               "expires within 100 ms. Count restart per term / on a healthy result, the callback and continuation as follower are decided by the monitor on health "
+               "scripts x thresholds x several terms.", "5.12 and 11", TECH),
+    "C13": sim("Theorems: the claim is raised only after the claimant's own successful write, and a takeover never replaces a record it could not decode (the takeover "
+               "invariant requires a readable stored priority). No crash/hang/unbounded work under arbitrary record bytes is decided by the monitor and the process "
+               "watchdog on tamper scenarios.", "5.13 and 11", TECH),
+    "C18": sim("Decided by the monitor only: every Status() snapshot at every quiescent point, every gauge and transition event of every simulated trace is compared "
+               "with the model's instance state. No theorem beyond the shared invariants.", "5.18 and 11", TECH, category="other"),
+    "C19": sim("Decided by the monitor only: the promotion context is observed by a watcher goroutine per term; early cancellation and survival beyond the term's end are "
+               "checked on every simulated trace. No theorem.", "5.19 and 11", TECH, category="other"),
+})
+
+NOT_CLAIMED = {"C20": "lock-discipline theorem and race-detector harness not built yet (DESIGN.md 5.20); no executable model exhibits a Go memory-model race"}
+
 checks = []
 for p in props:
     pid = p["id"]
@@ -89,8 +151,8 @@ m = {
                           "models tied to the code by a Go correspondence harness (/verif/harness) and an OCaml oracle extracted from the Coq definitions (/verif/oracle)",
     }],
     "checks": checks,
-    "notes": "See DESIGN.md. Fix commits in /repo and known findings are listed in known_findings.jsonl.",
-    "not_applicable": [{"property_id": p["id"], "reason": "check under construction in this session (to be claimed; see DESIGN.md section 5)"}
+    "notes": "See DESIGN.md (section 11 describes what was built). Fix commits in /repo and known findings are listed in known_findings.txt.",
+    "not_applicable": [{"property_id": p["id"], "reason": NOT_CLAIMED.get(p["id"], "not claimed")}
                        for p in props if p["id"] not in CLAIMED],
 }
 json.dump(m, open(os.path.join(VERIF, "MANIFEST.json"), "w"), indent=1)
